@@ -129,6 +129,9 @@ type Exec struct {
 	chanCount int
 	wg        map[*Loc]*wgState
 	sideTable map[interface{}]interface{}
+	touched   map[string]bool
+	touchSeen map[*Term]bool
+	ranges    map[string][2]int64 // declared range of verifIntIn inputs
 }
 
 func (ex *Exec) abort(kind abortKind, format string, args ...interface{}) {
@@ -158,6 +161,26 @@ func (ex *Exec) addPC(c *Term) {
 		return
 	}
 	ex.pc = append(ex.pc, c)
+	ex.touch(c)
+}
+
+// touch records the input variables constrained by the path condition (beyond their declared range).
+func (ex *Exec) touch(t *Term) {
+	if ex.touchSeen == nil {
+		ex.touchSeen = map[*Term]bool{}
+		ex.touched = map[string]bool{}
+	}
+	if ex.touchSeen[t] {
+		return
+	}
+	ex.touchSeen[t] = true
+	if t.Op == "var" {
+		ex.touched[t.S] = true
+		return
+	}
+	for _, a := range t.Args {
+		ex.touch(a)
+	}
 }
 
 func (ex *Exec) flushPC() {
@@ -350,6 +373,28 @@ func (ex *Exec) concretize(t *Term, lo, hi int, tag string) int {
 	conds := make([]*Term, n)
 	for i := 0; i < n; i++ {
 		conds[i] = Eq(t, BVConst(uint64(int64(lo+i)), t.Sort.W))
+	}
+	// an input variable that is constrained only by its declared range: every value of the range is feasible
+	if t.Op == "var" && !ex.touched[t.S] {
+		if r, ok := ex.ranges[t.S]; ok && ex.pos >= len(ex.decisions) {
+			var feas []int
+			for i := 0; i < n; i++ {
+				if int64(lo+i) >= r[0] && int64(lo+i) <= r[1] {
+					feas = append(feas, i)
+				}
+			}
+			if len(feas) > 0 {
+				ex.H.Stats.Decisions++
+				d := Decision{Chosen: feas[0], Alts: feas[1:], Tag: tag}
+				if len(feas) > 1 {
+					ex.H.Stats.Forks++
+				}
+				ex.decisions = append(ex.decisions, d)
+				ex.pos++
+				ex.addPC(conds[d.Chosen])
+				return lo + d.Chosen
+			}
+		}
 	}
 	return lo + ex.choose(n, conds, tag)
 }
